@@ -2,11 +2,12 @@
 //!
 //! Stream A (`CApi`): histories of operations on the real
 //! `yash_env::job::JobList`.  After each operation the observations made
-//! through the public API (iter, current_job, previous_job, find_by_pid, and
-//! `job::id::parse_tail(..).find(..)` for a list of job-ID texts) are written
-//! next to the operation; Coq replays the history on the model
-//! (`Yv.C12.Model.step`) and evaluates the invariant oracle on the
-//! implementation's observations.
+//! through the public API (iter, current_job, previous_job, find_by_pid,
+//! `job::id::parse_tail(..).find(..)` for a list of job-ID texts, and
+//! `last_async_pid()`) are written next to the operation; the operations
+//! include `set_last_async_pid`.  Coq replays the history on the model
+//! (`Yv.C12.Last.lstep` over `Yv.C12.Model.step`) and evaluates the invariant
+//! oracle and the `$!` oracle (`last_ok`) on the implementation's observations.
 //!
 //! Stream S (`CScript`): whole scripts on the simulated OS under `set -m` with
 //! a stub terminal: asynchronous lists (`work N S &`), `jobs`, `jobs %ID`,
@@ -198,11 +199,21 @@ enum Op {
     DisownAll,
     Expect(usize, Option<St>),
     Reported(usize),
+    /// `set_last_async_pid`
+    SetLast(i32),
 }
 
 impl Op {
+    /// The Coq term of type `lop` (coq/C12/Last.v).
     fn coq(&self, names: &mut Interner) -> String {
+        if let Op::SetLast(p) = self {
+            return format!("(OSetLast {})", coq::z(*p as i128));
+        }
+        format!("(LOp {})", self.coq_op(names))
+    }
+    fn coq_op(&self, names: &mut Interner) -> String {
         match self {
+            Op::SetLast(_) => unreachable!(),
             Op::Insert(p, s, n) => {
                 format!("(OInsert {} {} {})", coq::z(*p as i128), s.coq(), names.name(n))
             }
@@ -232,6 +243,7 @@ impl Op {
             Op::DisownAll => "disown_all".into(),
             Op::Expect(i, s) => format!("expect({i},{:?})", s.map(|s| s.show())),
             Op::Reported(i) => format!("reported({i})"),
+            Op::SetLast(p) => format!("set_last_async_pid({p})"),
         }
     }
 }
@@ -266,6 +278,7 @@ fn apply(list: &mut JobList, op: &Op) {
                 j.state_reported();
             }
         }
+        Op::SetLast(p) => list.set_last_async_pid(Pid(*p)),
     }
 }
 
@@ -332,7 +345,12 @@ fn random_op(rng: &mut Rng, list: &JobList, pids: &[i32]) -> Op {
     let max_idx = list.iter().map(|(i, _)| i).max().map_or(1, |m| m + 2);
     loop {
         match rng.below(100) {
-            0..=34 => {
+            0..=6 => {
+                // mostly a pid in play (what `&` / bg do), sometimes any number
+                let p = if rng.chance(3, 4) { *rng.pick(pids) } else { *rng.pick(&[0, 1, 9, 77, 32767, i32::MAX, -1]) };
+                return Op::SetLast(p);
+            }
+            7..=34 => {
                 let p = *rng.pick(pids);
                 // The property's precondition: a pid is only reused after its
                 // job has finished.
@@ -370,10 +388,19 @@ fn emit(w: &mut CasesWriter, pids: &[i32], ids: &[String], ops: &[Op]) {
     let mut max_jobs = 0;
     let mut max_susp = 0;
     for op in ops {
+        let was_empty = list.is_empty();
         apply(&mut list, op);
         let (term, h) = observe(&list, pids, ids, &mut names);
-        hist.push(format!("({}, {})", op.coq(&mut names), term));
-        human.push(format!("{} -> {}", op.show(), h));
+        // `$!` is observed after EVERY operation
+        let bang = list.last_async_pid().0;
+        hist.push(format!("({}, ({}, {}))", op.coq(&mut names), term, coq::z(bang as i128)));
+        human.push(format!("{} -> {} $!={}", op.show(), h, bang));
+        if bang != 0 && list.is_empty() && !matches!(op, Op::SetLast(_)) && !was_empty {
+            w.count("last:nonzero $! observed right after the table became empty");
+        }
+        if bang != 0 {
+            w.count("last:nonzero $! observed");
+        }
         max_jobs = max_jobs.max(list.len());
         max_susp = max_susp.max(list.iter().filter(|(_, j)| j.state.is_stopped()).count());
         w.count(match op {
@@ -384,6 +411,7 @@ fn emit(w: &mut CasesWriter, pids: &[i32], ids: &[String], ops: &[Op]) {
             Op::SetCurrent(..) => "op:set_current_job",
             Op::DisownAll => "op:disown_all",
             Op::Expect(..) | Op::Reported(..) => "op:job_ref_mut",
+            Op::SetLast(..) => "op:set_last_async_pid",
         });
         // distribution of the job-ID resolutions asked
         let gap = {
@@ -1172,6 +1200,32 @@ fn main() {
             ],
         ),
     ];
+    let mut corpus = corpus;
+    // `$!` survives every operation, in particular the ones that empty the
+    // table (remove / remove_if clear the slab) and a second set
+    corpus.push((
+        vec![10, 11],
+        vec!["+", "-", "1", "2"],
+        vec![
+            Op::SetLast(11),
+            Op::Insert(10, St::Running, n0()),
+            Op::Remove(0),
+            Op::Insert(10, St::Stopped(19), n0()),
+            Op::Insert(11, St::Running, n0()),
+            Op::SetLast(10),
+            Op::Update(10, St::Exited(0)),
+            Op::Update(11, St::Signaled(9, false)),
+            Op::SetCurrent(1),
+            Op::DisownAll,
+            Op::Expect(0, Some(St::Running)),
+            Op::Reported(1),
+            Op::RemoveFinished,
+            Op::SetLast(0),
+            Op::Insert(10, St::Running, n0()),
+            Op::SetLast(-1),
+            Op::RemoveIdxs(vec![0]),
+        ],
+    ));
     for (pids, ids, ops) in &corpus {
         let ids: Vec<String> = ids.iter().map(|s| s.to_string()).collect();
         emit(&mut w, pids, &ids, ops);
@@ -1193,6 +1247,7 @@ fn main() {
             alphabet.push(Op::SetCurrent(i));
         }
         alphabet.push(Op::RemoveFinished);
+        alphabet.push(Op::SetLast(11));
         let mut stack: Vec<Vec<usize>> = vec![vec![]];
         while let Some(seq) = stack.pop() {
             if !seq.is_empty() {
@@ -1238,6 +1293,11 @@ fn main() {
         let ids = pick_ids(&mut r);
         let mut list = JobList::new();
         let mut ops = vec![];
+        if r.chance(1, 2) {
+            let op = Op::SetLast(*r.pick(&pids));
+            apply(&mut list, &op);
+            ops.push(op);
+        }
         if many {
             for p in &pids {
                 let op = Op::Insert(*p, random_state(&mut r), r.pick(&NAMES).to_string());
@@ -1254,7 +1314,8 @@ fn main() {
     }
     w.finish(
         "stream A: random histories over 2-10 pids (insert only on a vacant or finished pid) with job names \
-         and 8-12 job-ID texts resolved after every operation; non-trivial = at least two jobs coexisted and \
+         and 8-12 job-ID texts resolved after every operation, set_last_async_pid at random points (about 7 % of the \
+         operations and first in half of the histories) and last_async_pid() read after every operation; non-trivial = at least two jobs coexisted and \
          at least one was suspended; distinct = by operation sequence.  stream S: scripts of 5-18 commands \
          chosen from the real state (asynchronous lists, jobs, wait/kill/bg/fg with %N %+ %- %% %name %?name \
          operands, virtual time); non-trivial = two jobs coexisted and an operand designated a job; distinct = by script",
